@@ -225,18 +225,24 @@ static void restore_snap(const struct snap *sn)
 }
 
 /* run a history from scratch. returns index of the violating op (>=0) or -1 ; *anyerr = some API call returned an error */
+static int vdev_sticky_next;
+static int silent_at;	/* fault runs: index of the first flush/close that returned success with a stale backing file, or -1 */
 static int run_history(const int *h, int n, long fail_at, int check, int *anyerr, int verbose)
 {
 	int i, r, e;
+	silent_at = -1;
 	fresh();
 	if (open_channel()) return 0;
-	vdev_fail_at = fail_at; vdev_write_calls = 0; vdev_failures = 0;
+	vdev_fail_at = fail_at; vdev_write_calls = 0; vdev_failures = 0; vdev_fail_sticky = vdev_sticky_next;
 	*anyerr = 0;
 	for (i = 0; i < n; i++) {
 		char b[64];
 		e = 0;
 		r = apply(&ops[h[i]], check && !*anyerr, &e);
 		if (e) *anyerr = 1;
+		/* fault runs: a flush or close that reports success while no earlier call reported an error must have made the backing file current */
+		if (fail_at > 0 && !check && r == 0 && !*anyerr && silent_at < 0 && (ops[h[i]].k == K_F || ops[h[i]].k == K_CR) &&
+		    memcmp(vdev_files[0].cur, model, DEVBYTES)) silent_at = i;
 		if (verbose) { opstr(h[i], b, sizeof b); printf("%-28s -> %s %s%s\n", b, r > 0 ? "VIOLATION:" : r < 0 ? "not enabled" : "ok", vmsg, e ? " (API returned an error)" : ""); }
 		if (r > 0) return i;
 		if (r < 0 && !verbose) return -2 - i;	/* disabled op: caller skips */
@@ -276,9 +282,11 @@ int main(int argc, char **argv)
 		char *tok = strtok(argv[6], ","); long fail = -1;
 		n = 0; while (tok) { h[n++] = atoi(tok); tok = strtok(NULL, ","); }
 		if (argc >= 9 && !strcmp(argv[7], "--fail")) fail = atol(argv[8]);
+		if (argc >= 10 && !strcmp(argv[9], "--sticky")) vdev_sticky_next = argc >= 11 ? atoi(argv[10]) : 1;
 		r = run_history(h, n, fail, fail < 0, &anyerr, 1);
 		if (fail >= 0) {
-			int bad = !anyerr && vdev_failures && memcmp(vdev_files[0].cur, model, DEVBYTES);
+			int bad = vdev_failures && ((!anyerr && memcmp(vdev_files[0].cur, model, DEVBYTES)) || silent_at >= 0);
+			if (silent_at >= 0) printf("operation #%d (flush/close) returned success, no error had been reported, but the backing file was not current\n", silent_at);
 			printf("injected failures: %ld, error reported to a caller: %s, device equals written data: %s -> %s\n", vdev_failures, anyerr ? "yes" : "no",
 			       memcmp(vdev_files[0].cur, model, DEVBYTES) ? "no" : "yes", bad ? "VIOLATION" : "ok");
 			return bad;
@@ -338,11 +346,16 @@ int main(int argc, char **argv)
 			run_history(h, n, -1, 0, &anyerr, 0);
 			total = vdev_write_calls;
 			for (k = 1; k <= total; k++) {
-				run_history(h, n, k, 0, &anyerr, 0);
-				faultruns++;
-				if (vdev_failures && !anyerr && memcmp(vdev_files[0].cur, model, DEVBYTES)) {
-					faultviol++;
-					if (faultviol <= 20) { printf("{\"type\":\"violation\",\"kind\":\"silent_write_failure\",\"msg\":\"device write %ld failed, no call returned an error and the backing file differs from the written data\",\"fail\":%ld,", k, k); print_hist("history", h, n); printf("}\n"); }
+				int sticky;
+				for (sticky = 0; sticky < 3; sticky++) {
+					vdev_sticky_next = sticky;
+					run_history(h, n, k, 0, &anyerr, 0);
+					faultruns++;
+					if (vdev_failures && ((!anyerr && memcmp(vdev_files[0].cur, model, DEVBYTES)) || silent_at >= 0)) {
+						faultviol++;
+						if (faultviol <= 20) { printf("{\"type\":\"violation\",\"kind\":\"silent_write_failure\",\"msg\":\"device write %ld failed (%s); %s\",\"fail\":%ld,\"sticky\":%d,", k, sticky == 1 ? "and every later one" : sticky == 2 ? "together with the next one" : "once",
+							silent_at >= 0 ? "a later flush/close returned success although no call had reported an error and the backing file was not current" : "no call returned an error and the backing file differs from the written data", k, sticky); print_hist("history", h, n); printf("}\n"); }
+					}
 				}
 			}
 		}
